@@ -122,6 +122,18 @@ NEEDS = {
     "C14h": "a second thread that looks after the connection with poll()/poll_all()/.ready receives the waiter's reply: poll() got its own fast path that omits notify_all, the waiter parked in serve() is not woken",
     "C16h": "ThreadPoolServer: a well-framed packet with bad content (corrupt zlib, garbage payload): the worker loop's catch-all narrowed to socket/select/EOF errors, each such packet kills one worker thread for good (visible at once with a one-worker pool)",
     "C17h": "ForkingServer with two or more clients leaving at about the same time: the SIGCHLD handler's reap-all loop became a single waitpid - SIGCHLD is not queued, the other children stay zombies",
+    "C02i": "any comparison whose TARGET is a class object (builtin or user class): the comparison handler fetches the method from the object instead of from type(obj), finding the instances' unbound method - TypeError instead of a bool",
+    "C03i": "one transfer of an instance of any tuple subclass (isinstance instead of the exact-type test in _box; third independent appearance of this mechanism after C01c and C02g)",
+    "C04i": "an unserializable value as a direct member of a tuple/frozenset with 5 or more members: per-member writer looked up in the registry directly, refusal is KeyError instead of TypeError",
+    "C05i": "sender compresses, packet > 3000 bytes that zlib level 1 cannot shrink: header flag says 'not compressed' but the body is the deflate output",
+    "C10i": "an instance of a class the peer does not know yet, arriving twice so that the second arrival is processed inside the first one's class-inspection wait: the peer counts one reference too many and later releases one too many (cold class cache + replies to asynchronous requests)",
+    "C12i": "two threads plus a re-entrant send inside the SECOND packet's write: blocking acquire with an owner marker, release() before the marker is cleared - the late clear wipes the next holder's marker and its nested send blocks on its own lock",
+    "C13i": "send loop draining under one lock acquisition without re-check (third independent appearance of C08b's mechanism)",
+    "C15i": "a timeout of exactly 0 passed to async_request (`if timeout:` instead of `is not None`): the result never expires",
+    "C16i": "ThreadedServer: a client that resets before a Connection exists - shutdown() raises ENOTCONN inside the finally block, close() and clients.discard() are skipped: one descriptor and one table entry leak per such client (until accept dies at the fd limit)",
+    "C18i": "one REGISTER carrying two or more names new to the registry: dict.fromkeys gives them ONE shared server table",
+    "C19i": "a received packet whose payload ends in 0x0a: terminator removed with rstrip, payload newlines are eaten with it",
+    "C20i": "download from a peer whose filesystem is not the local one: the 'is it a regular file' test on the REMOTE path runs on the local side; files are skipped silently",
     "C18b": "register, advance the clock, re-register, advance: setdefault never refreshes the time stamp, live server pruned / wrong order",
 }
 
